@@ -13,6 +13,9 @@
 //! {"stages":[["M"|"S"|"J", len_100m], ..] (no two "S"/"J" adjacent; "J" = two-branch junction, only first or last), "lockouts":bool,
 //!  "foul":len_100m, "v":[m/s per stage], "grade":[1e-4 units per stage],
 //!  "trains":[{"dir":"E"|"W","depart":s,"ncars":n}, ..]}
+//! General form ("topo":"graph"): {"segs":[[len_m, v, prev, prev_alt, next, next_alt, [locked segs]], ..] (forward
+//!  ids 1..n, the reverse link of i is 2n+1-i; a lock covers both directions of both segments), "head":bool,
+//!  "trains":[{"orig":[directed link ids],"dest":[..],"depart":s,"ncars":n,"vmax":m/s}, ..]}
 use altrios_core::meet_pass::dispatch::{run_dispatch, verif_hook};
 use altrios_core::prelude::*;
 use altrios_core::train::InitTrainState;
@@ -218,6 +221,86 @@ fn diamond(d: &Value) -> (Value, [[u32; 4]; 2]) {
     )
 }
 
+
+/// General network: forward segments with explicit linking; the reverse link of forward id i is 2n+1-i.
+fn graph(d: &Value) -> Value {
+    let segs = ga(d, "segs");
+    let n = segs.len();
+    let flip = |i: usize| -> usize { if i == 0 { 0 } else { 2 * n + 1 - i } };
+    let head = d.get("head").and_then(|x| x.as_bool()).unwrap_or(true);
+    let g = |s: &Value, k: usize| s[k].as_i64().unwrap() as usize;
+    let mut out = vec![];
+    for i in 1..=2 * n {
+        let f = if i <= n { i } else { flip(i) };
+        let s = &segs[f - 1];
+        let (len, v) = (s[0].as_i64().unwrap(), s[1].as_i64().unwrap());
+        let (prev, prev_alt, next, next_alt) = if i <= n {
+            (g(s, 2), g(s, 3), g(s, 4), g(s, 5))
+        } else {
+            (flip(g(s, 4)), flip(g(s, 5)), flip(g(s, 2)), flip(g(s, 3)))
+        };
+        let mut lockout = vec![];
+        for l in s[6].as_array().unwrap() {
+            let l = l.as_i64().unwrap() as usize;
+            lockout.push(l);
+            lockout.push(flip(l));
+        }
+        out.push(json!({"len": len, "flip": flip(i), "next": next, "next_alt": next_alt, "prev": prev,
+            "prev_alt": prev_alt, "lockout": lockout, "elevs": [[0, 0], [len, 0]], "head": head, "rs": [[0, len, v]]}));
+    }
+    json!({"oscale": 1, "vscale": 1, "escale": 100, "links": out})
+}
+
+/// Incremental builder of "graph" descriptors (forward segment ids, 1-based).
+#[derive(Default)]
+struct NB {
+    segs: Vec<(i64, i64, usize, usize, usize, usize, Vec<usize>)>,
+}
+impl NB {
+    fn add(&mut self, len: i64, v: i64) -> usize {
+        self.segs.push((len, v, 0, 0, 0, 0, vec![]));
+        self.segs.len()
+    }
+    /// links `a` -> `b` (b becomes a's next / next_alt, a becomes b's prev / prev_alt)
+    fn connect(&mut self, a: usize, b: usize) {
+        let sa = &mut self.segs[a - 1];
+        if sa.4 == 0 { sa.4 = b } else { sa.5 = b }
+        let sb = &mut self.segs[b - 1];
+        if sb.2 == 0 { sb.2 = a } else { sb.3 = a }
+    }
+    fn ext(&mut self, a: usize, len: i64, v: i64) -> usize {
+        let b = self.add(len, v);
+        self.connect(a, b);
+        b
+    }
+    fn lock(&mut self, a: usize, b: usize) {
+        self.segs[a - 1].6.push(b);
+        self.segs[b - 1].6.push(a);
+    }
+    /// passing siding after `a`: each track switch link (foul) + body + switch link, then a main link; returns the main
+    fn siding(&mut self, a: usize, body_p: i64, body_a: i64, foul: i64, v_p: i64, v_a: i64, lock: bool, main: i64, v_m: i64) -> usize {
+        let p1 = self.ext(a, foul, v_p);
+        let a1 = self.ext(a, foul + 1, v_a);
+        let p2 = self.ext(p1, body_p, v_p);
+        let p3 = self.ext(p2, foul, v_p);
+        let a2 = self.ext(a1, body_a, v_a);
+        let a3 = self.ext(a2, foul + 1, v_a);
+        let m = self.ext(p3, main, v_m);
+        self.connect(a3, m);
+        if lock {
+            self.lock(p1, a1);
+            self.lock(p3, a3);
+        }
+        m
+    }
+    fn flip(&self, i: usize) -> usize {
+        2 * self.segs.len() + 1 - i
+    }
+    fn segs_json(&self) -> Value {
+        Value::Array(self.segs.iter().map(|s| json!([s.0, s.1, s.2, s.3, s.4, s.5, s.6])).collect())
+    }
+}
+
 fn t_ms(v: &Value) -> Value {
     match v.as_f64() {
         Some(x) => qi(x, MS),
@@ -283,7 +366,10 @@ fn project_snapshot(js: &str) -> Value {
 
 fn exec(desc: &Value, tr: &mut Tracer) -> anyhow::Result<()> {
     let is_diamond = desc.get("topo").and_then(|x| x.as_str()) == Some("diamond");
-    let (netd, eo, ed, wo, wd, lines) = if is_diamond {
+    let is_graph = desc.get("topo").and_then(|x| x.as_str()) == Some("graph");
+    let (netd, eo, ed, wo, wd, lines) = if is_graph {
+        (graph(desc), [0u32; 2], [0u32; 2], [0u32; 2], [0u32; 2], [[0u32; 4]; 2])
+    } else if is_diamond {
         let (n, l) = diamond(desc);
         (n, [0u32; 2], [0u32; 2], [0u32; 2], [0u32; 2], l)
     } else {
@@ -316,7 +402,7 @@ fn exec(desc: &Value, tr: &mut Tracer) -> anyhow::Result<()> {
     let mut nets: Vec<EstTimeNet> = vec![];
     let mut tinfo = vec![];
     for (ti, t) in ga(desc, "trains").iter().enumerate() {
-        let east = gs(t, "dir") == "E";
+        let east = t.get("dir").and_then(|x| x.as_str()) != Some("W");
         // "bo" / "bd": branch at a junction end used as origin / destination: 0 | 1 | 2 = both branches
         // (a train with two origin / destination links; 0 when absent)
         let bo = t.get("bo").and_then(|x| x.as_u64()).unwrap_or(0) as usize;
@@ -328,7 +414,10 @@ fn exec(desc: &Value, tr: &mut Tracer) -> anyhow::Result<()> {
                 vec![two[b % 2]]
             }
         };
-        let (os_, ds_) = if is_diamond {
+        let ids = |k: &str| -> Vec<u32> { ga(t, k).iter().map(|x| x.as_u64().unwrap() as u32).collect() };
+        let (os_, ds_) = if is_graph {
+            (ids("orig"), ids("dest"))
+        } else if is_diamond {
             let l = lines[t.get("line").and_then(|x| x.as_u64()).unwrap_or(0) as usize % 2];
             if east { (vec![l[0]], vec![l[1]]) } else { (vec![l[2]], vec![l[3]]) }
         } else if east {
@@ -436,11 +525,140 @@ fn exec(desc: &Value, tr: &mut Tracer) -> anyhow::Result<()> {
     Ok(())
 }
 
+
+/// Composite networks in the general form. Families:
+///  0 "yard lead": line X with a short crossing link xc, line Y whose ORIGIN link o (a yard lead) is declared mutually
+///    exclusive with xc; Y trains depart around the time an X train holds xc
+///  1 "converge": two branches A, B converging on a link shorter than the trains, then a crossing link (locked against a
+///    crossing link of line Y), a main, an unlocked siding, a main; line Y: main, crossing, short link, LOCKED siding,
+///    main; trains in all four relations (branch -> T end, T end -> branch, Y both ways)
+///  2 "convoy": corridor with 2..4 sidings of three links per track; 3..4 trains following each other closely (long slow
+///    ones ahead of a short fast one), sometimes an opposing train
+fn gen_graph(r: &mut Rng, fam: i64, seed: u64, k: usize) -> Value {
+    let mut nb = NB::default();
+    let mut trains = vec![];
+    let cars = [20i64, 40, 50, 80];
+    let vm = [12i64, 20, 25, 30];
+    let name;
+    match fam {
+        0 => {
+            name = "yardlead";
+            let vx = *r.pick(&[15i64, 20]);
+            let x1 = nb.add(r.range(50, 120) * 100, vx);
+            let xc = nb.ext(x1, r.range(2, 6) * 100, vx);
+            let x3 = nb.ext(xc, r.range(50, 120) * 100, vx);
+            let o = nb.add(r.range(16, 25) * 100, 20); // longer than the longest train (an origin link shorter than its train is rejected)
+            let y2 = nb.ext(o, r.range(100, 140) * 100, 20);
+            let y3 = nb.ext(y2, r.range(40, 80) * 100, 20);
+            nb.lock(o, xc);
+            // X trains (either direction), then Y trains departing while an X train is around the crossing
+            let nx = r.range(1, 2);
+            let mut t_cross = vec![];
+            for i in 0..nx {
+                let dep = 120 + i * *r.pick(&[0i64, 300, 600, 900]);
+                let east = r.chance(2, 3);
+                let n = *r.pick(&cars);
+                let v = *r.pick(&[12i64, 20]);
+                let run = nb.segs[if east { x1 } else { x3 } - 1].0 / v.min(vx);
+                t_cross.push(dep + run);
+                trains.push(if east {
+                    json!({"orig":[x1],"dest":[x3],"depart":dep,"ncars":n,"vmax":v})
+                } else {
+                    json!({"orig":[nb.flip(x3)],"dest":[nb.flip(x1)],"depart":dep,"ncars":n,"vmax":v})
+                });
+            }
+            for _ in 0..r.range(1, 2) {
+                let dep = (*r.pick(&t_cross) + r.range(-60, 240)).max(120);
+                let n = *r.pick(&cars);
+                trains.push(if r.chance(3, 4) {
+                    json!({"orig":[o],"dest":[y3],"depart":dep,"ncars":n,"vmax":*r.pick(&vm)})
+                } else {
+                    json!({"orig":[nb.flip(y3)],"dest":[nb.flip(o)],"depart":120 + r.range(0, 300),"ncars":n,"vmax":*r.pick(&vm)})
+                });
+            }
+        }
+        1 => {
+            name = "converge";
+            let a1 = nb.add(r.range(60, 100) * 100, 20);
+            let a2 = nb.ext(a1, r.range(30, 50) * 100, 20);
+            let b1 = nb.add(r.range(60, 90) * 100, 20);
+            let b2 = nb.ext(b1, r.range(30, 50) * 100, *r.pick(&[15i64, 20]));
+            let t1 = nb.ext(a2, r.range(2, 5) * 100, 20);
+            nb.connect(b2, t1);
+            let tc = nb.ext(t1, r.range(3, 5) * 100, 20);
+            let t2 = nb.ext(tc, r.range(30, 60) * 100, 20);
+            let t3 = nb.siding(t2, 2500, 2500, 150, 20, 12, false, 9000, 20);
+            let y1 = nb.add(r.range(90, 120) * 100, 20);
+            let yc = nb.ext(y1, 400, 20);
+            let y2 = nb.ext(yc, r.range(3, 8) * 100, 20);
+            let y3 = nb.siding(y2, 2500, 2500, 150, 20, 12, true, 9000, 20);
+            nb.lock(tc, yc);
+            let rel = [
+                (vec![a1], vec![t3]), (vec![b1], vec![t3]),
+                (vec![nb.flip(t3)], vec![nb.flip(a1)]), (vec![nb.flip(t3)], vec![nb.flip(b1)]),
+                (vec![y1], vec![y3]), (vec![nb.flip(y3)], vec![nb.flip(y1)]),
+            ];
+            // sub = 0 (three in six): trains of both branches converging on the short link, sometimes one coming back;
+            // sub = 1 (two in six): line Y only, two or three trains leaving the end next to the locked siding against
+            // one coming the other way; sub = 2: any relation
+            let sub = match r.range(0, 5) { 0..=2 => 0, 3..=4 => 1, _ => 2 };
+            let nt = r.range(3, 4);
+            for j in 0..nt {
+                let i = match sub {
+                    0 => if j + 1 == nt && r.chance(1, 3) { r.range(2, 3) } else { r.range(0, 1) },
+                    1 => if j == 0 { 4 } else { 5 },
+                    _ => r.range(0, 5),
+                } as usize;
+                let (o, d) = rel[i].clone();
+                trains.push(json!({"orig":o,"dest":d,"depart":120 + 60 * r.range(0, 20),"ncars":*r.pick(&cars),"vmax":*r.pick(&vm)}));
+            }
+            if r.chance(1, 2) {
+                let k = r.range(1, trains.len() as i64 - 1) as usize;
+                trains.rotate_left(k);
+            }
+        }
+        _ => {
+            name = "convoy";
+            let ks = *r.pick(&[2i64, 2, 3]);
+            let lock = r.chance(1, 3);
+            let first = nb.add(r.range(90, 140) * 100, 20);
+            let mut m = first;
+            for _ in 0..ks {
+                let body = *r.pick(&[1500i64, 2500, 2500]);
+                m = nb.siding(m, body, body, 150, 20, 12, lock, r.range(90, 140) * 100, 20);
+            }
+            let nf = r.range(3, 4);
+            for i in 0..nf {
+                // long slow trains ahead, a short fast one somewhere behind
+                let slow = i + 1 < nf || r.chance(1, 4);
+                let (n, v) = if slow { (*r.pick(&[60i64, 80, 80]), 12) } else { (*r.pick(&[20i64, 50]), *r.pick(&[20i64, 25])) };
+                trains.push(json!({"orig":[first],"dest":[m],"depart":120 + i * *r.pick(&[120i64, 240, 240, 480]),"ncars":n,"vmax":v}));
+            }
+            if r.chance(1, 3) {
+                trains.push(json!({"orig":[nb.flip(m)],"dest":[nb.flip(first)],"depart":120 + 60 * r.range(0, 20),"ncars":*r.pick(&cars),"vmax":20}));
+            }
+            if r.chance(1, 2) {
+                let k = r.range(1, trains.len() as i64 - 1) as usize;
+                trains.rotate_left(k);
+            }
+        }
+    }
+    json!({"src":"gen","seed":seed,"k":k,"topo":"graph","family":name,"head":r.chance(1, 2),
+           "segs":nb.segs_json(),"trains":trains,"stages":[["M", 400]],"lockouts":true})
+}
+
 fn gen(seed: u64, n: usize, tier: &str) -> Vec<Value> {
     let mut out = vec![];
     let maxtr = if tier == "quick" { 5 } else { 7 };
     for k in 0..n {
         let mut r = Rng::new(seed.wrapping_mul(7_000_003).wrapping_add(k as u64));
+        // nine scenarios in twenty are composite networks (fixed quotas per block of twenty: 2 yard lead, 5 converging
+        // junction + crossing, 2 convoy)
+        let fam = match k % 20 { 0 | 1 => 0, 2..=6 => 1, 7 | 8 => 2, _ => -1 };
+        if fam >= 0 {
+            out.push(gen_graph(&mut r, fam, seed, k));
+            continue;
+        }
         let sid = r.range(0, 3) as usize;
         let mut stages = vec![];
         for i in 0..=sid {
